@@ -278,11 +278,14 @@ theorem dotted_names_condense_witness :
     expandPath ["a", "a.0", "x.1.0"] = ["a.0", "a.1", "a.0.0", "a.0.1", "x.1.0.0", "x.1.0.1"] :=
   ⟨rfl, by decide⟩
 
-/-- python: `subpath_constraints[0][0]` on an empty first constraint is an `IndexError`, not `[]` -/
-theorem first_constraint_empty_witness :
-    expandConstraints exG (.nodes [[], ["a"]]) = .error "index" ∧
-    expandConstraints exG (.nodes [["a"], []]) = .ok [[("a.0", "a.1")], []] :=
-  ⟨rfl, rfl⟩
+/-- an empty constraint, first or not, is rejected (`ValueError`); before the repair an empty first constraint made
+`subpath_constraints[0][0]` raise `IndexError` and an empty later one was passed on to the model's own validation -/
+theorem empty_constraint_rejected_witness :
+    expandConstraints exG (.nodes [[], ["a"]]) = .error "empty" ∧
+    expandConstraints exG (.nodes [["a"], []]) = .error "empty" ∧
+    expandConstraints exG (.edges [[("a", "a.0")], []]) = .error "empty" ∧
+    expandConstraints exG (.nodes [["a"]]) = .ok [[("a.0", "a.1")]] :=
+  ⟨rfl, rfl, rfl, rfl⟩
 
 /-- a damaged path (odd length, or starting at a `.1` node) is rejected or truncated exactly as the code does -/
 example : condensePath exG.nodes [] ["a.1", "a.0.0", "a.0.1"] = .error "invalid" := rfl
